@@ -1,13 +1,14 @@
 #!/bin/bash
 # Re-evaluates every seeded change against the quick tier of its property (no re-confirmation), in N parallel lanes.
-# usage: tools/seeded_all.sh [lanes]   -> logs under .work/seeded-all/
+# usage: tools/seeded_all.sh [lanes] [seeds, e.g. 2 or 2,3]   -> logs under .work/seeded-all/
 cd "$(dirname "$0")/.."
 lanes=${1:-4}
+seeds=${2:-1}
 mkdir -p .work/seeded-all
 ls seeded | grep '^C' | sort > .work/seeded-all/names.txt
 for i in $(seq 0 $((lanes-1))); do
   awk -v n=$lanes -v i=$i 'NR%n==i' .work/seeded-all/names.txt > .work/seeded-all/lane$i.txt
-  ( python3 seeded/run.py $(cat .work/seeded-all/lane$i.txt) --noconfirm > .work/seeded-all/lane$i.log 2>&1 ) &
+  ( python3 seeded/run.py $(cat .work/seeded-all/lane$i.txt) --noconfirm --seeds $seeds > .work/seeded-all/lane$i.log 2>&1 ) &
 done
 wait
 grep -h "tier=quick" .work/seeded-all/lane*.log | sort > .work/seeded-all/summary.txt
